@@ -30,6 +30,9 @@ class BgoldSolutionChecker(BitcoinSolutionChecker):
         )
 
     def _signature_for_hash_type_segwit(self, script: bytes, tx_in_idx: int, hash_type: int) -> int:  # type: ignore[override]
+        # witness inputs are replay protected too: a hash type without the fork-id bit is refused
+        if hash_type & SIGHASH_FORKID != SIGHASH_FORKID:
+            raise self.ScriptError()
         hash_type |= self.FORKID_BTG << 8
         return from_bytes_32(
             double_sha256(self._segwit_signature_preimage(script, tx_in_idx, hash_type))
